@@ -31,6 +31,7 @@ type SiteSpec struct {
 	Assume  []*Clause
 	Assert  []*Clause
 	Ghost   []string
+	Step    string // "h": the call at this site is an atomic step on the monitor of object h (taken without the lock)
 	Label   string
 	Props   []string
 	Line    int
@@ -631,6 +632,17 @@ func (db *ContractDB) loadContractFile(path string, pkgPath string, src []byte) 
 				return fmt.Errorf("%s:%d: set outside site", path, rl.line)
 			}
 			curSite.Ghost = append(curSite.Ghost, rest)
+		case "step":
+			if curSite == nil {
+				return fmt.Errorf("%s:%d: step outside site", path, rl.line)
+			}
+			curSite.Step = rest
+		case "setall":
+			// inside a site: setall x T :: x.f = <expr>
+			if curSite == nil {
+				return fmt.Errorf("%s:%d: setall outside site", path, rl.line)
+			}
+			curSite.Ghost = append(curSite.Ghost, "forall "+rest)
 		case "assert", "assume":
 			if curSite == nil && curRule != nil {
 				c, err := mkClause(rest, rl.line)
